@@ -41,6 +41,7 @@ class Tracker:
         self.anchors = list(anchors)
         self.counts = Counter()
         self.code_to_name = {}
+        self.codes_of = {}
         self.unresolved = []
         self.active = False
 
@@ -57,6 +58,7 @@ class Tracker:
                 # the run; it is reported and left out of the reach verdict
                 self.unresolved.append(spec)
                 continue
+            self.codes_of[spec] = codes
             for code in codes:
                 self.code_to_name[code] = spec
         try:
@@ -66,9 +68,8 @@ class Tracker:
         self.active = True
 
         def on_start(code, offset):
-            name = self.code_to_name.get(code)
-            if name is not None:
-                self.counts[name] += 1
+            if code in self.code_to_name:
+                self.counts[code] += 1
 
         mon.register_callback(TOOL_ID, mon.events.PY_START, on_start)
         for code in self.code_to_name:
@@ -85,5 +86,8 @@ class Tracker:
         self.active = False
 
     def hits(self):
+        # two anchors may resolve to the same code object (a method that a refactor moved to a
+        # common base class): each of them is reached when that code ran
         unresolved = set(getattr(self, "unresolved", []))
-        return {a: self.counts.get(a, 0) for a in self.anchors if a not in unresolved}
+        return {a: sum(self.counts.get(c, 0) for c in self.codes_of.get(a, []))
+                for a in self.anchors if a not in unresolved}
